@@ -28,8 +28,23 @@ def load_configs(chk, cfgs, required=()):
     return ok
 
 
+import os as _os
+import time as _time
+# wall-clock budget of one check process: past it every remaining obligation evaluator is skipped and reported
+# *unproven* (fail closed) instead of letting a pathological input run for hours
+CHECK_SECONDS = float(_os.environ.get('HMSA_CHECK_SECONDS', '900'))
+_T0 = _time.time()
+
+
+def out_of_time():
+    return _time.time() - _T0 > CHECK_SECONDS
+
+
 def guarded(chk, key, rule, fn, **kw):
     """run one obligation evaluator; an analyser exception is an *unproven* obligation (fail closed)"""
+    if out_of_time():
+        chk.ob(key, rule, 'unproven', why='the time budget of this check (%.0f s) is exhausted; not evaluated' % CHECK_SECONDS, **kw)
+        return None
     try:
         return fn()
     except Exception as e:      # noqa
